@@ -235,6 +235,7 @@ def judge (line impl : String) : String :=
     | [_, is] => parseIds is
     | _ => []
   let obs := impl.splitOn " | "
+  if impl = "crash" ∨ impl = "hang" then "violation the process died / hung while running the case (unbounded recursion through the chain?)" else
   if obs.length ≠ ops.length then "violation wrong number of observations" else
   let (_, bad) := (ops.zip obs).foldl (fun (acc : List Nat × List String) oo =>
     match (oo.1.splitOn " ").filter (· ≠ "") with
